@@ -29,35 +29,39 @@ Definition finit : fstate :=
 
 Inductive fres := FPanic | FNoMatch | FMatch (score : Z) (indexes : list Z).
 
+(* the candidate part of one iteration: rune c at position j against the current pattern rune p;
+   returns the new bestScore, matchedIndex and currAdjacentMatchBonus *)
+Definition cand (j : Z) (c p : N) (st : fstate) : Z * Z * Z :=
+  if eq_fold c p then
+    let s0 := ((if Z.eqb j 0 then 10 else 0) +
+               (if is_lower (f_last st) && is_upper c then 20 else 0) +
+               (if negb (Z.eqb j 0) && is_sep (f_last st) then 20 else 0))%Z in
+    let bonus := match f_matched st with
+                 | [] => 0%Z
+                 | lastMatch :: _ => if Z.eqb lastMatch (f_last_index st) then (f_adj st * 2 + 5)%Z else 0%Z
+                 end in
+    let s1 := (s0 + bonus)%Z in
+    let adj' := (f_adj st + bonus)%Z in
+    if (f_best st <? s1)%Z then (s1, j, adj') else (f_best st, f_mi st, adj')
+  else (f_best st, f_mi st, f_adj st).
+
+Definition next_pattern_rune (runes : list N) (pi : nat) : N :=
+  if Nat.ltb pi (length runes - 1) then nth (S pi) runes 0%N else 0%N.
+
 (* one iteration of the inner loop: position j, candidate rune c, next rune nextc (0 at the end of the string) *)
 Definition fstep (runes : list N) (j : Z) (c nextc : N) (st : fstate) : option fstate :=
   match nth_error runes (f_pi st) with
   | None => None                                   (* index out of range: panic *)
   | Some p =>
-    let '(best1, mi1, adj1) :=
-      if eq_fold c p then
-        let s0 := ((if Z.eqb j 0 then 10 else 0) +
-                   (if is_lower (f_last st) && is_upper c then 20 else 0) +
-                   (if negb (Z.eqb j 0) && is_sep (f_last st) then 20 else 0))%Z in
-        let '(s1, adj') :=
-          match f_matched st with
-          | [] => (s0, f_adj st)
-          | lastMatch :: _ =>
-              let bonus := if Z.eqb lastMatch (f_last_index st) then (f_adj st * 2 + 5)%Z else 0%Z in
-              ((s0 + bonus)%Z, (f_adj st + bonus)%Z)
-          end in
-        if (f_best st <? s1)%Z then (s1, j, adj') else (f_best st, f_mi st, adj')
-      else (f_best st, f_mi st, f_adj st) in
-    let nextp := if Nat.ltb (f_pi st) (length runes - 1) then nth (S (f_pi st)) runes 0%N else 0%N in
-    let st1 := {| f_pi := f_pi st; f_best := best1; f_mi := mi1; f_adj := adj1; f_last := c; f_last_index := j;
-                  f_matched := f_matched st; f_total := f_total st |} in
-    if (eq_fold nextp nextc || N.eqb nextc 0) && (-1 <? mi1)%Z then
+    let '(best1, mi1, adj1) := cand j c p st in
+    if (eq_fold (next_pattern_rune runes (f_pi st)) nextc || N.eqb nextc 0) && (-1 <? mi1)%Z then
       let best2 := match f_matched st with
                    | [] => (best1 + Z.max (mi1 * -5) (-15))%Z
                    | _ => best1 end in
       Some {| f_pi := S (f_pi st); f_best := -1; f_mi := mi1; f_adj := adj1; f_last := c; f_last_index := j;
               f_matched := mi1 :: f_matched st; f_total := (f_total st + best2)%Z |}
-    else Some st1
+    else Some {| f_pi := f_pi st; f_best := best1; f_mi := mi1; f_adj := adj1; f_last := c; f_last_index := j;
+                 f_matched := f_matched st; f_total := f_total st |}
   end.
 
 Fixpoint floop (runes : list N) (j : Z) (s : list N) (st : fstate) : option fstate :=
